@@ -22,7 +22,7 @@
      TP i k    preprocess of block k of file i: preprocFunc, then `select { Terminating | out <- }`.
      TM        run(): [MSel] outer select, [MFile i] receive from the per-file channel,
                [MPoll] the IsTerminating poll, [MCall] continuity check + handler call,
-               [MRet e] `s.Shutdown(s.run())`, [MDone] Run has returned.
+               [MRet e] `s.Shutdown(s.run())`, [MDone e] Run has returned (run() had returned e).
      TX        an outside caller of Shutdown(nil) (present iff c_ext).
    Channels: fileStream (capacity 1) = s_fs; per-file `blocks` (capacity 0): a rendezvous,
    executed by the sender's step when run() waits in [MFile i]; `preprocessed` (capacity
@@ -76,7 +76,7 @@ Inductive rpc := RIdle | ROpen | RLoop | RSend | RFail | RWait | RDone.
 Inductive dpc := DIdle | DSel | DCell (k : nat) | DSend (v : pblk) | DDone.
 Inductive cst := CNone | CRun | CFull (v : pblk) | CDead | CTaken.
 Inductive mpc := MSel | MFile (i : nat) | MPoll (i : nat) (v : pblk) | MCall (i : nat) (v : pblk)
-               | MRet (e : errc) | MDone.
+               | MRet (e : errc) | MDone (e : errc).
 Inductive fsitem := IFile (i : nat) | IStop.
 
 Record fstate := mkF {
@@ -129,6 +129,13 @@ Definition set_m x s := mkS (s_err s) (s_x s) (s_l s) (s_sent s) (s_fs s) (s_fsc
 Definition set_taken x s := mkS (s_err s) (s_x s) (s_l s) (s_sent s) (s_fs s) (s_fsclosed s) (s_file s) (s_m s) x (s_last s) (s_calls s).
 Definition set_last x s := mkS (s_err s) (s_x s) (s_l s) (s_sent s) (s_fs s) (s_fsclosed s) (s_file s) (s_m s) (s_taken s) x (s_calls s).
 Definition set_calls x s := mkS (s_err s) (s_x s) (s_l s) (s_sent s) (s_fs s) (s_fsclosed s) (s_file s) (s_m s) (s_taken s) (s_last s) x.
+
+(* the error class with which a fault site reports itself through Shutdown *)
+Definition fclass (f : fault) : errc :=
+  match f with
+  | FNone => ENil | FExists _ => EExists | FOpen _ => EOpen | FHeader _ => EHeader
+  | FRead _ _ => ERead | FPre _ _ => EPre | FHandler _ => EHandler
+  end.
 
 Definition term (s : state) : bool := match s_err s with Some _ => true | None => false end.
 
@@ -285,8 +292,8 @@ Section Model.
           let s1 := set_calls (s_calls s ++ [v]) (set_last (b_id b) s) in
           if is_FHandler (length (s_calls s)) then set_m (MRet EHandler) s1
           else set_m (MFile i) s1
-    | MRet e => set_m MDone (shut e s)
-    | MDone => s
+    | MRet e => set_m (MDone e) (shut e s)
+    | MDone _ => s
     end.
 
   Definition step_X (s : state) : state :=
@@ -323,7 +330,7 @@ Section Model.
     match n with O => [] | S n' => all_moves ++ rounds n' end.
 End Model.
 
-Definition returned (s : state) : bool := match s_m s with MDone => true | _ => false end.
+Definition returned (s : state) : bool := match s_m s with MDone _ => true | _ => false end.
 
 (* nobody can move any more *)
 Definition quiescent (pre : blk -> N) (C : cfg) (s : state) : Prop :=
